@@ -123,6 +123,9 @@ class Vocab:
         if self.noext:
             self.flaws.append(("placeholder-stray", lambda i: self.form(self.noext[i % len(self.noext)], i) + "/#",
                                "PLACEHOLDER_INVALID", False))
+        # a tag text with a stray slash (caught by the formatting stage, before any schema lookup)
+        self.flaws.append(("slash-leading", lambda i: "/" + self.form(self.plain[i % len(self.plain)], i), "TAG_INVALID", False))
+        self.flaws.append(("slash-trailing", lambda i: self.form(self.plain[i % len(self.plain)], i) + "/", "TAG_INVALID", False))
         self.flaws.append(("bad-char", lambda i: self.form(self.plain[i % len(self.plain)], i) + "[", "CHARACTER_INVALID", False))
         # a forbidden character inside an otherwise legal text / name VALUE (checked by a different routine than tag names)
         self.text_tags = [t for t, v, k in self.value if k in ("textClass", "nameClass")]
@@ -230,6 +233,7 @@ def render(case, vocab, rot, allow_ph=False, style=0, perm=None, ns="", forms=No
     lp, rp = [("(", ")"), ("( ", " )"), ("(", ")"), (" (", ") ")][style % 4]
 
     leafno = [0]
+    badleaves = [k for k in range(n) if kind[k] == "bad"]
 
     def cs(txt):
         if casing == 3:      # mixed: every other tag occurrence in lower case
@@ -264,8 +268,14 @@ def render(case, vocab, rot, allow_ph=False, style=0, perm=None, ns="", forms=No
             et = vocab.ext_ok[(rot * 5 + 1) % len(vocab.ext_ok)]
             return ns + cs(vocab.form(et, fo + 3) + "/" + ("Maße-ext" if (vocab.f.is83 and (rot % 2 or not ext_ascii_mix)) else "Newword-ext"))
         if kd == "bad":
+            # several flawed leaves in one tree carry DIFFERENT flaws (chosen by the leaf's position in the tree, so that every
+            # rewrite of the tree writes the same flaw at the same leaf)
+            rank = badleaves.index(k)
+            fl = flaw if rank == 0 else menu[(rot + 5 * rank) % len(menu)]
+            if rank and (fl[0].startswith("def-") or fl[0] == "placeholder"):
+                fl = menu[0]
             flaw_used = flaw
-            txt = flaw[1](rot)
+            txt = fl[1](rot + rank)
             return ns + txt if ns and not txt.startswith("Qq") else (ns + txt if ns else txt)
         if kd == "def":
             if flaw[0] == "def-unit-case" and "bad" in kind:
